@@ -7,7 +7,7 @@ PID = "C05"
 THEOREMS = ["PauLie.C05.validSeq_iff", "PauLie.C05.validSeq_sound", "PauLie.C05.nestedPublic_matrix",
             "PauLie.C05.nestedCommutatorResult_matrix", "PauLie.C05.orientation", "PauLie.C05.C05_refuted", "PauLie.C05.C05_refuted_zero",
             "PauLie.C05.C05_refuted_detail", "PauLie.C05.observed_YIY", "PauLie.C05.observed_IIX", "PauLie.C07.universalSet_ok"] + SEARCH_THEOREMS_C05
-IMPORTS = ["PauLieVerif.Properties.C05", "PauLieVerif.Properties.C05Search"]
+IMPORTS = ["PauLieVerif.Properties.C05", "PauLieVerif.Properties.C05Search", "PauLieVerif.Properties.C05Valid"]
 
 # the literals of Properties/C05.lean (Compiler.observedReturns): the implementation must still return exactly these
 WITNESSES = ["witness 3 2 YIY", "witness 3 2 IIX"]
@@ -189,10 +189,13 @@ def main(tier):
         assumptions=["the search procedures of the compiler (subsystem_compiler, left_map_over_a, _case3_best_reordering, _bfs_case3, compile, compile_target) "
                      "are modelled exactly (tie: correspondence on all targets N<=4/5 and the samples to N=8); the property is decided per returned sequence by the "
                      "validator whose meaning (non-empty, inside the universal set, nested matrix commutator = c*M(target), c != 0) is proved in Lean for all N, k",
-                     "proved for all inputs about the model: a sequence returned through a VERIFIED return of compile (W=I; the three candidates of V!=I; "
-                     "_case3_best_reordering) is non-empty and its nested commutator reads as the target (never zero, never another string) — C05_verified_return; in "
-                     "the W=I branch it is Valid (C05_wI_valid). NOT proved: membership in the universal set for the verified returns of V!=I / V=I (subsystem_compiler "
-                     "may insert helpers; no such case for N<=6); anything about the unverified returns and _bfs_case3, where all recorded failures arise",
+                     "proved for all inputs about the model (all N, 2<=k<N, every well-formed target): a sequence returned through a VERIFIED return of compile (W=I; "
+                     "the three candidates of V!=I; all four phases of _case3_best_reordering) is Valid — non-empty, every element INSIDE the universal set (hence "
+                     "well formed of length N), nested matrix commutator = c*M(target), c != 0 (C05_verified_return_valid). Reason: subsystem_compiler(W) stays inside "
+                     "the set when W has at most one X/Z factor, and otherwise drops the first factor of W (loop `while i >= 1`), so that a bit of W is clear in every "
+                     "element (C05_subsystem_dichotomy); a non-vanishing nested commutator is the product of its elements (C05_nested_is_product), so the self-check "
+                     "fails in every arrangement. Consequently every invalid output leaves through one of the three returns WITHOUT self-check (last return of V!=I, "
+                     "_bfs_case3, last return of V=I): C05_failures_only_unverified. NOT proved: anything positive about those three returns",
                      "the verified candidates 1, 2 of the V!=I branch and phases 2-4 of _case3_best_reordering never produce the returned sequence on ANY of the 16380 "
                      "(k, target) pairs with N=6 nor on any target with N<=5 (model census): inside compile they are exercised only on their failing path; their "
                      "succeeding paths are tied by the search-helpers stream",
